@@ -21,6 +21,8 @@ FixedDevs == {
     "avail_conftest_first",     \* resolver.rs:516  completion view: first conftest def, not last   (fixed fe369e3)
     "rff_samefile_first",       \* resolver.rs:1702 outgoing-calls resolver: first same-file def    (fixed d5a9bd4)
     "avail_requires_cache",     \* resolver.rs:529  completion view consulted imports only if conftest is in file_cache (fixed a7d180e)
+    "scope_check_first_def",    \* resolver.rs:1673 scope check compared with definitions[dep].first() (fixed 18e3410)
+    "cycle_hash_order_roots",   \* resolver.rs:1533 DFS roots iterated a randomly seeded HashMap (fixed f0d21d2)
     "version_only_on_add"       \* mod.rs:155 / analyzer.rs:273 version bumped only when a def is recorded (fixed e7e7c04)
 }
 
@@ -31,6 +33,7 @@ AllDevs == {
     "rff_ignores_imports",      \* resolver.rs:1706 outgoing-calls resolver never consults conftest imports
     "rff_fallback_any",         \* resolver.rs:1750 outgoing-calls resolver falls back to any definition
     "rff_no_self_exclusion",    \* call_hierarchy.rs:189 `def n(n)`: outgoing call of n resolves to n itself
+    "cycle_name_level_graph",   \* resolver.rs:1515 cycle graph is built per NAME from definitions[name].first()
     "memo_truncated",           \* imports.rs:421-458 visited-truncated import set is memoised
     "reexport_from_current_text"\* imports.rs:429-481 re-exports recomputed from current (maybe invalid) text
 }
